@@ -17,37 +17,43 @@ func init() {
 		}
 		return o
 	}
-	// what a call hands back: 0 = nothing, 1 = the marshalled / built value
-	val := map[string]int{"nil": 0, "tls.Marshal(input)": 1, "&leaf": 1, "leafHash": 1, "[sha256.Size]byte{}": 0, "true": 1, "false": 0}
+	// what a call hands back: 0 = nothing, 1 = the marshalled / built value ("f(…)": the call whatever its arguments are)
+	val := map[string]int{"nil": 0, "tls.Marshal(…)": 1, "&leaf": 1, "leaf": 1, "[sha256.Size]byte{}": 0, "true": 1, "false": 0}
 	register(genFile{name: "CtWrappers", imports: []string{"CTV.Basic.I64", "CTV.Basic.ErrKind", "CTV.Gen.CtTypes"}, units: []unit{
 		{"SerializeSCTSignatureInput", handlerKernel(ser, "SerializeSCTSignatureInput", "serializeSCTSignatureInput",
 			"(version_ etype_ : Int) (marshalFails : Bool)", "Nat × Bool", "", "(0, false)",
-			Spec{Kind: "u64", Lazy: true, Inline: true, Canon: true, Ret: "statusstate", Status: val,
-				IgnoreLHS: []string{"input", "input.X509Entry", "input.PrecertEntry"},
+			Spec{Kind: "u64", Lazy: true, Inline: true, Canon: true, Ret: "statusstate", Status: val, DropThrough: true, ErrFlow: true, NegRepl: true,
+				IgnoreLHS: []string{"input"},
 				ErrCalls:  map[string]string{"tls.Marshal": "marshalFails"},
 				Repl:      with(map[string]string{"sct.SCTVersion": "version_", "entry.Leaf.TimestampedEntry.EntryType": "etype_"})})},
 		{"SerializeSTHSignatureInput", handlerKernel(ser, "SerializeSTHSignatureInput", "serializeSTHSignatureInput",
 			"(version_ : Int) (rootLenBad marshalFails : Bool)", "Nat × Bool", "", "(0, false)",
-			Spec{Kind: "u64", Lazy: true, Inline: true, Canon: true, Ret: "statusstate", Status: val,
+			Spec{Kind: "u64", Lazy: true, Inline: true, Canon: true, Ret: "statusstate", Status: val, DropThrough: true, ErrFlow: true, NegRepl: true,
 				IgnoreLHS: []string{"input"},
+				PureCalls: []string{"crypto.SHA256.Size"},
 				ErrCalls:  map[string]string{"tls.Marshal": "marshalFails"},
 				InitCond:  map[string]string{"got, want := len(sth.SHA256RootHash), crypto.SHA256.Size() ; got != want": "rootLenBad"},
 				Repl:      with(map[string]string{"sth.Version": "version_", "len(sth.SHA256RootHash) != crypto.SHA256.Size()": "rootLenBad"})})},
-		{"LeafHashForLeaf", handlerKernel(ser, "LeafHashForLeaf", "leafHashForLeaf", "(marshalFails : Bool)", "Nat × Bool", "", "(0, false)",
-			Spec{Kind: "u64", Lazy: true, Inline: true, Canon: true, Ret: "statusstate", Status: val,
-				IgnoreLHS: []string{"data", "leafHash"},
-				ErrCalls:  map[string]string{"tls.Marshal": "marshalFails"}})},
+		// hashed_: has sha256.Sum256 run (the array handed back is the hash then, the zero value before)
+		{"LeafHashForLeaf", handlerKernel(ser, "LeafHashForLeaf", "leafHashForLeaf", "(marshalFails : Bool)", "Nat × Bool", "let hashed_ := false\n  ", "(0, false)",
+			Spec{Kind: "u64", Lazy: true, Inline: true, Canon: true, Ret: "statusstate", Status: val, DropThrough: true, ErrFlow: true,
+				IgnoreLHS: []string{"data", "leafHash"}, Ignore: []string{"copy"},
+				Effects:   map[string]string{"sha256.Sum256": "hashed_ := true"},
+				ErrCalls:  map[string]string{"tls.Marshal": "marshalFails"},
+				Repl:      map[string]string{"leafHash": "hashed_.toNat"}})},
 		{"IsPreIssuer", handlerKernel(ser, "IsPreIssuer", "isPreIssuer", "(hasCtEku : Bool)", "Bool", "", "false",
 			Spec{Kind: "u64", Lazy: true, Ret: "tuple", RangeCond: map[string]string{"issuer.ExtKeyUsage": "hasCtEku", "elem:issuer.ExtKeyUsage": "eku", "cond:issuer.ExtKeyUsage": "eku == x509.ExtKeyUsageCertificateTransparency"}})},
-		// which certificate of the chain gives issuer_key_hash (issuerIdx_), whether BuildPrecertTBS gets a pre-issuer (pre_)
+		// certificates are followed as chain indices (nil = -1): issuerIdx_ = the certificate whose key is hashed into issuer_key_hash (read off
+		// the argument of sha256.Sum256), preIdx_ = the certificate handed to BuildPrecertTBS as pre-issuer (read off the call)
 		{"MerkleTreeLeafFromChain", handlerKernel(ser, "MerkleTreeLeafFromChain", "merkleTreeLeafFromChain",
-			"(chainLen_ etype_ : Int) (issuerIsPreIssuer buildFails : Bool)", "Nat × Bool × Int × Bool", "let issuerIdx_ := (0 : Int)\n  let pre_ := false\n  ", "(0, false, issuerIdx_, pre_)",
-			Spec{Kind: "i64", Lazy: true, Inline: true, Ret: "statusstate", Status: val, StateVars: []string{"issuerIdx_", "pre_"},
-				IgnoreLHS:    []string{"leaf", "leaf.TimestampedEntry.X509Entry", "leaf.TimestampedEntry.EntryType", "leaf.TimestampedEntry.PrecertEntry", "cert", "preIssuer"},
-				ErrCalls:     map[string]string{"x509.BuildPrecertTBS": "buildFails"},
-				CallRepl:     map[string]string{"IsPreIssuer": "issuerIsPreIssuer"},
-				AppendEffect: map[string]string{"stmt:issuer:=chain[1]": "issuerIdx_ := 1", "stmt:issuer=chain[2]": "issuerIdx_ := 2", "stmt:preIssuer=issuer": "pre_ := true"},
-				Vars:         map[string]string{"len(chain)": "chainLen_", "etype": "etype_"},
-				Repl:         with(nil)})},
+			"(chainLen_ etype_ : Int) (issuerIsPreIssuer buildFails : Bool)", "Nat × Bool × Int × Int", "let issuerIdx_ := (-1 : Int)\n  let preIdx_ := (-1 : Int)\n  ", "(0, false, issuerIdx_, preIdx_)",
+			Spec{Kind: "i64", Lazy: true, Inline: true, Ret: "statusstate", Status: val, StateVars: []string{"issuerIdx_", "preIdx_"}, DropThrough: true, ErrFlow: true, NegRepl: true,
+				IgnoreLHS: []string{"leaf"},
+				ErrCalls:  map[string]string{"x509.BuildPrecertTBS": "buildFails|preIdx_ := $1"},
+				UseEffect: map[string]string{"sha256.Sum256": "issuerIdx_ := $0.base"},
+				CallRepl:  map[string]string{"IsPreIssuer": "issuerIsPreIssuer"},
+				Vars:      map[string]string{"len(chain)": "chainLen_", "etype": "etype_"},
+				Repl: with(map[string]string{"chain[0]": "(0 : Int)", "chain[1]": "(1 : Int)", "chain[2]": "(2 : Int)", "nil": "(-1 : Int)",
+					"zero:*x509.Certificate": "(-1 : Int)"})})},
 	}})
 }
